@@ -34,7 +34,7 @@ func runC14(p *Prog, r *Report) {
 		r.Anchor("C14.R4", "ratelimit.TokenLimiter", "type not found")
 	}
 	// R5: the built-in source token is injective on peers: two distinct peers never share limiter state (shared with C19.R1)
-	r.Borrow(p, runC19, map[string]string{"C19.R1": "C14.R5"}, nil)
+	r.Borrow(p, runC19, map[string]string{"C19.R1": "C14.R5", "C19.R2": "C14.R5"}, nil)
 }
 
 // extractCall finds `x.extract.Extract(req)` in fn.
